@@ -216,7 +216,7 @@ func checkClone(p *Program, r *Report, pv *Prov) {
 	for _, st := range storesToField(fn, pkgTemplate, "nameSpace", "esc") {
 		if fa := st.Addr.(*ssa.FieldAddr); fa.X == ssa.Value(freshNS) {
 			if c, ok := st.Val.(*ssa.Call); ok {
-				if g := staticCallee(c.Common()); g != nil && g.Name() == "makeEscaper" && c.Common().Args[0] == ssa.Value(freshNS) {
+				if g := staticCallee(c.Common()); g != nil && cname(g) == "makeEscaper" && c.Common().Args[0] == ssa.Value(freshNS) {
 					escOK = true
 				}
 			}
